@@ -164,6 +164,10 @@ func runSelftest(args []string) int {
 				}
 			}
 			results, _, problems, err := runProperty(o)
+			// the query files of a mutation run are of no further use (a corpus run left 18 GB of them)
+			if os.Getenv("D2VC_KEEP_QUERIES") == "" {
+				_ = os.RemoveAll(o.workDir)
+			}
 			if err != nil {
 				out[i].detail = "run failed: " + err.Error()
 				return
